@@ -16,7 +16,12 @@ use std::time::{Duration, Instant};
 /// storage classes, including UIDs that are string prefixes of one another (CT / Enhanced CT / NM)
 const SOP_CLASSES: [&str; 6] = ["1.2.840.10008.5.1.4.1.1.2", "1.2.840.10008.5.1.4.1.1.4", "1.2.840.10008.5.1.4.1.1.7", "1.2.840.10008.5.1.4.1.1.88.11", "1.2.840.10008.5.1.4.1.1.2.1", "1.2.840.10008.5.1.4.1.1.20"];
 const NC: usize = SOP_CLASSES.len();
-const TS_UIDS: [&str; 4] = ["1.2.840.10008.1.2", "1.2.840.10008.1.2.1", "1.2.840.10008.1.2.2", "1.2.840.10008.1.2.1.99"];
+const TS_UIDS: [&str; 5] = ["1.2.840.10008.1.2", "1.2.840.10008.1.2.1", "1.2.840.10008.1.2.2", "1.2.840.10008.1.2.1.99", ENCAPSULATED_UNCOMPRESSED];
+const NT: usize = TS_UIDS.len();
+/// Encapsulated Uncompressed Explicit VR Little Endian: files in this syntax carry an image whose pixel data is
+/// encapsulated (one fragment per frame); sending them on a native context requires decoding the pixel data
+const ENCAPSULATED_UNCOMPRESSED: &str = "1.2.840.10008.1.2.1.98";
+const ENC: usize = 4;
 
 fn ref_ts(uid: &str) -> Option<(Ts, bool)> {
     match uid {
@@ -24,6 +29,7 @@ fn ref_ts(uid: &str) -> Option<(Ts, bool)> {
         "1.2.840.10008.1.2.1" => Some((Ts::ExplicitLE, false)),
         "1.2.840.10008.1.2.2" => Some((Ts::ExplicitBE, false)),
         "1.2.840.10008.1.2.1.99" => Some((Ts::ExplicitLE, true)),
+        ENCAPSULATED_UNCOMPRESSED => Some((Ts::ExplicitLE, false)),
         _ => None,
     }
 }
@@ -82,13 +88,57 @@ fn only_dictionary_vr(elems: &[Elem]) -> Vec<Elem> {
 
 fn dataset(f: &FileSpec, k: usize) -> (Vec<Elem>, String) {
     let inst = format!("1.2.826.0.1.3680043.10.1462.{}", k + 1);
-    let base = if f.ts % 4 == 0 { only_dictionary_vr(&only_standard(&f.elems)) } else { only_standard(&f.elems) };
+    let base = if f.ts as usize % NT == 0 { only_dictionary_vr(&only_standard(&f.elems)) } else { only_standard(&f.elems) };
     let mut v: Vec<Elem> = base.into_iter().filter(|e| e.g >= 8 && !(e.g == 8 && (e.e == 0x05 || e.e == 0x16 || e.e == 0x18))).collect();
+    if f.ts as usize % NT == ENC {
+        // an 8-bit single-sample image, 1-3 frames of 1-20 pixels (odd frame sizes included), one fragment per frame
+        v.retain(|e| e.g != 0x0028 && e.g < 0x7FE0);
+        let rows = 1 + (k * 3 + f.elems.len()) % 5;
+        let cols = 1 + f.sop_class as usize % 4;
+        let frames = 1 + f.elems.len() % 3;
+        let us = |e: u16, n: usize| Elem { g: 0x0028, e, vr: "US".into(), v: Val::U16(vec![n as u16]) };
+        v.push(us(0x0002, 1));
+        v.push(Elem { g: 0x0028, e: 0x0004, vr: "CS".into(), v: Val::Strs(vec!["MONOCHROME2".into()]) });
+        v.push(Elem { g: 0x0028, e: 0x0008, vr: "IS".into(), v: Val::Strs(vec![frames.to_string()]) });
+        v.push(us(0x0010, rows));
+        v.push(us(0x0011, cols));
+        v.push(us(0x0100, 8));
+        v.push(us(0x0101, 8));
+        v.push(us(0x0102, 7));
+        v.push(us(0x0103, 0));
+        let fsz = rows * cols;
+        let mut bot = vec![];
+        let mut frags = vec![];
+        let mut off = 0u32;
+        for fr in 0..frames {
+            let mut b: Vec<u8> = (0..fsz).map(|i| (1 + i * 7 + fr * 31 + k * 3) as u8).collect();
+            if b.len() % 2 == 1 {
+                b.push(0);
+            }
+            bot.push(off);
+            off += 8 + b.len() as u32;
+            frags.push(b);
+        }
+        v.push(Elem { g: 0x7FE0, e: 0x0010, vr: "OB".into(), v: Val::Pix { bot, frags } });
+    }
     v.push(Elem { g: 8, e: 0x16, vr: "UI".into(), v: Val::Strs(vec![SOP_CLASSES[f.sop_class as usize % NC].into()]) });
     v.push(Elem { g: 8, e: 0x18, vr: "UI".into(), v: Val::Strs(vec![inst.clone()]) });
     v.sort_by_key(|e| (e.g, e.e));
     v.dedup_by_key(|e| (e.g, e.e));
     (v, inst)
+}
+
+/// what the data set of an Encapsulated Uncompressed file looks like once its pixel data was decoded to native
+fn decoded(elems: &[Elem]) -> Vec<Elem> {
+    let num = |e: u16| elems.iter().find(|x| (x.g, x.e) == (0x0028, e)).and_then(|x| if let Val::U16(v) = &x.v { v.first().copied() } else { None }).unwrap_or(1) as usize;
+    let fsz = num(0x0010) * num(0x0011);
+    elems
+        .iter()
+        .map(|e| match &e.v {
+            Val::Pix { frags, .. } if (e.g, e.e) == (0x7FE0, 0x0010) => Elem { g: e.g, e: e.e, vr: "OB".into(), v: Val::U8(frags.iter().flat_map(|f| f[..fsz.min(f.len())].to_vec()).collect()) },
+            _ => e.clone(),
+        })
+        .collect()
 }
 
 fn deflate(b: &[u8]) -> Vec<u8> {
@@ -135,6 +185,13 @@ fn same(a: &[PElem], b: &[PElem], path: &str) -> Result<(), String> {
                     same(&u.elems, &v.elems, &format!("{p}[{i}]"))?;
                 }
             }
+            (PVal::Pix { bot: b1, frags: f1, .. }, PVal::Pix { bot: b2, frags: f2, .. }) => {
+                if b1 != b2 || f1 != f2 {
+                    return Err(format!("{p}: encapsulated pixel data differs ({} fragments vs {} expected)", f1.len(), f2.len()));
+                }
+            }
+            (PVal::Pix { .. }, _) => return Err(format!("{p}: pixel data is encapsulated, native expected")),
+            (_, PVal::Pix { .. }) => return Err(format!("{p}: pixel data is native, encapsulated expected")),
             _ => return Err(format!("{p}: value kinds differ")),
         }
     }
@@ -168,7 +225,7 @@ fn serve(mut p: RawPeer, conn: usize, c: &Case, out: &Mutex<Vec<Stored>>, notes:
         let chosen = pc.transfer_syntaxes.iter().map(|t| t.trim_end_matches('\0').to_string()).find(|t| {
             let ti = TS_UIDS.iter().position(|s| s == t);
             match (cls, ti) {
-                (Some(ci), Some(ti)) => c.policy.iter().any(|(a, b)| *a as usize % NC == ci && *b as usize % 4 == ti),
+                (Some(ci), Some(ti)) => c.policy.iter().any(|(a, b)| *a as usize % NC == ci && *b as usize % NT == ti),
                 _ => false,
             }
         });
@@ -254,7 +311,7 @@ fn check(root: &std::path::Path, c: &Case, obs: &mut Obs) {
     let mut paths = vec![];
     for (k, f) in c.files.iter().enumerate() {
         let (elems, inst) = dataset(f, k);
-        let uid = TS_UIDS[f.ts as usize % 4];
+        let uid = TS_UIDS[f.ts as usize % NT];
         let (rts, defl) = ref_ts(uid).unwrap();
         let raw = ds::encode_ds(&elems, rts, LenMode::AsFlagged);
         let body = if defl { deflate(&raw) } else { raw };
@@ -265,7 +322,7 @@ fn check(root: &std::path::Path, c: &Case, obs: &mut Obs) {
             return;
         }
         paths.push(path);
-        specs.push((elems, inst, f.sop_class as usize % NC, f.ts as usize % 4));
+        specs.push((elems, inst, f.sop_class as usize % NC, f.ts as usize % NT));
     }
     let listener = match TcpListener::bind("127.0.0.1:0") {
         Ok(l) => l,
@@ -360,7 +417,7 @@ fn check(root: &std::path::Path, c: &Case, obs: &mut Obs) {
             obs.fail("C33:storescu sends a PDU longer than the acceptor's maximum", m);
         }
     }
-    let policy_desc = format!("accepted combinations {:?}; files {:?}; exit code {code}", c.policy.iter().map(|(a, b)| (*a as usize % NC, *b % 4)).collect::<Vec<_>>(), specs.iter().map(|s| (s.2, s.3)).collect::<Vec<_>>());
+    let policy_desc = format!("accepted combinations {:?}; files {:?}; exit code {code}", c.policy.iter().map(|(a, b)| (*a as usize % NC, *b as usize % NT)).collect::<Vec<_>>(), specs.iter().map(|s| (s.2, s.3)).collect::<Vec<_>>());
     let opts_cmd = ParseOpts { ts: Ts::ImplicitLE, sq_tags: None, require_even: false, require_ascending: false };
     let mut sent_count = vec![0usize; specs.len()];
     for st in &stored {
@@ -395,6 +452,18 @@ fn check(root: &std::path::Path, c: &Case, obs: &mut Obs) {
         // the bytes decode to the file's data set in the context's transfer syntax
         let Some((rts, defl)) = ref_ts(ts) else { continue };
         let body = if defl { inflate(&st.data).unwrap_or_default() } else { st.data.clone() };
+        // an Encapsulated Uncompressed file sent on any other context must carry native (decoded) pixel data
+        let dec;
+        let elems = if *fts == ENC && ts != ENCAPSULATED_UNCOMPRESSED {
+            obs.class("pixel-data-decoded-for-a-native-context");
+            dec = decoded(elems);
+            &dec
+        } else {
+            elems
+        };
+        if *fts == ENC {
+            obs.class(format!("encapsulated-file-sent-as:{ts}"));
+        }
         let sqs = ds::sq_tags(elems);
         let want = ds::encode_ds(elems, rts, LenMode::AsFlagged);
         let po = ParseOpts { ts: rts, sq_tags: Some(&sqs), require_even: false, require_ascending: true };
@@ -413,7 +482,7 @@ fn check(root: &std::path::Path, c: &Case, obs: &mut Obs) {
             obs.fail("C33:file sent more than once", format!("file {k}: {n} times; {policy_desc}"));
         }
         let (_, _, cls, fts) = &specs[k];
-        let direct = c.policy.iter().any(|(a, b)| *a as usize % NC == *cls && *b as usize % 4 == *fts);
+        let direct = c.policy.iter().any(|(a, b)| *a as usize % NC == *cls && *b as usize % NT == *fts);
         if direct && *n == 0 {
             obs.fail("C33:file not sent although a context with its SOP class and transfer syntax was accepted", format!("file {k}; {policy_desc}; notes {notes:?}; stderr: {err_tail}"));
         }
@@ -425,15 +494,24 @@ fn check(root: &std::path::Path, c: &Case, obs: &mut Obs) {
 }
 
 fn strategy() -> BoxedStrategy<Case> {
-    let file = (0u8..6, 0u8..4, gen::dataset(DsCfg { max_depth: 2, max_top: 5, pixel_seq: false })).prop_map(|(sop_class, ts, elems)| FileSpec { sop_class, ts, elems });
+    let file = (0u8..6, prop_oneof![4 => 0u8..4, 1 => Just(4u8)], gen::dataset(DsCfg { max_depth: 2, max_top: 5, pixel_seq: false })).prop_map(|(sop_class, ts, elems)| FileSpec { sop_class, ts, elems });
     (
         proptest::collection::vec(file, 1..=5),
-        proptest::collection::vec((0u8..6, 0u8..4), 0..=12),
+        proptest::collection::vec((0u8..6, prop_oneof![5 => 0u8..4, 1 => Just(4u8)]), 0..=12),
         prop_oneof![Just(16384u32), Just(1018u32), Just(0u32), 1018u32..70_000],
         proptest::bool::weighted(0.3),
         proptest::option::weighted(0.3, 0u8..3),
+        // per file: optionally accept its SOP class with some transfer syntax, so that most runs send something
+        proptest::collection::vec(proptest::option::weighted(0.6, prop_oneof![5 => 0u8..4, 1 => Just(4u8)]), 5),
     )
-        .prop_map(|(files, policy, acceptor_max, never_transcode, concurrency)| Case { files, policy, acceptor_max, never_transcode, concurrency })
+        .prop_map(|(files, mut policy, acceptor_max, never_transcode, concurrency, per_file)| {
+            for (f, t) in files.iter().zip(per_file) {
+                if let Some(t) = t {
+                    policy.push((f.sop_class, t));
+                }
+            }
+            Case { files, policy, acceptor_max, never_transcode, concurrency }
+        })
         .boxed()
 }
 
@@ -442,7 +520,7 @@ pub fn run(ctx: &Ctx) {
     ctx.assume("the real dicom-storescu binary (built from /repo's working tree by ./check) is run against a recording acceptor played by the harness (reference PDU codec)");
     ctx.run_prop(
         "storescu",
-        "1-5 files built with the reference encoders (6 storage SOP classes, three of them with UIDs that are prefixes of one another, x Implicit VR LE / Explicit VR LE / Explicit VR BE / Deflated Explicit VR LE, standard-dictionary elements, nested sequences) are sent by the real dicom-storescu binary (sync, or -c 1..3; with and without --never-transcode) to a recording acceptor whose accepted (SOP class, transfer syntax) combinations, and maximum PDU length (incl. 0 and the minimum), are generated; oracle per store request recorded: the context id was accepted, its abstract syntax is the file's SOP class (the file is identified by the Affected SOP Instance UID), the Affected SOP Class UID is the file's, the data (inflated when deflated) parsed by the reference parser in the context's transfer syntax equals the reference encoding of the file's data set in that syntax, no PDU exceeds the acceptor's maximum; a file is sent at most once, and is sent when a context with exactly its class and syntax was accepted; non-trivial = several files and at least one store",
+        "1-5 files built with the reference encoders (6 storage SOP classes, three of them with UIDs that are prefixes of one another, x Implicit VR LE / Explicit VR LE / Explicit VR BE / Deflated Explicit VR LE / (in 20% of the files) Encapsulated Uncompressed Explicit VR LE with an 8-bit image of 1-3 frames, one fragment per frame; standard-dictionary elements, nested sequences) are sent by the real dicom-storescu binary (sync, or -c 1..3; with and without --never-transcode) to a recording acceptor whose accepted (SOP class, transfer syntax) combinations, and maximum PDU length (incl. 0 and the minimum), are generated; oracle per store request recorded: the context id was accepted, its abstract syntax is the file's SOP class (the file is identified by the Affected SOP Instance UID), the Affected SOP Class UID is the file's, the data (inflated when deflated) parsed by the reference parser in the context's transfer syntax equals the reference encoding of the file's data set in that syntax (for an encapsulated file sent on another context: with the pixel data decoded to native bytes), no PDU exceeds the acceptor's maximum; a file is sent at most once, and is sent when a context with exactly its class and syntax was accepted; non-trivial = several files and at least one store",
         strategy,
         ctx.cases(800, 10_000),
         move |c: &Case, obs: &mut Obs| check(&root, c, obs),
